@@ -346,6 +346,8 @@ func newEnv(c *suiteCtx, cfg proxyCfg) (*testEnv, error) {
 		o.Session.Redis.ConnectionURL = "redis://" + mr.Addr() + "?max_retries=-1"
 	}
 	o.Session.Cookie.Minimal = cfg.CookieMinimal
+	// the options under test are the ones the real configuration loader produces for these settings
+	o = e.viaConfigPath(o)
 	if err := validation.Validate(o); err != nil {
 		e.close()
 		return nil, fmt.Errorf("validate: %w", err)
